@@ -143,6 +143,20 @@ CLAIMED = {
             'Accuracy of scipy tails decided against mpmath (rtol 1e-9 + conditioning term for NBD, atol 2e-12). Trusted: '
             'pmf recurrences in vh/drivers/c07.py.',
             '5/C07'),
+    'C15': ('TLA+ calendar (Civil.tla: days-from-civil / civil-from-days on 32-bit integers) and TimeConv.tla checked by TLC '
+            'over complete millisecond windows; every real conversion recorded per instant and validated by TLC against that '
+            'calendar (TraceTimeConv)',
+            'TLC checks CivilRoundTrip, FieldsInRange, LeapYears and StrictlyMonotone over complete +-2000 ms windows around 12 '
+            '(quick) / 606 (thorough) year, leap-day and epoch boundaries. About 3e4 (quick) / 1e6 (thorough) integer '
+            'milliseconds of 1900..2200 (uniform, complete windows around boundaries incl. 2038 / 2106 float thresholds, all '
+            '1000 millisecond phases of sampled seconds) are pushed through epoch->datetime->epoch (aware and naive), formatted '
+            'string->epoch (with / without fraction, +00:00), decimal year and its inverse, and datetimes with a microsecond '
+            'phase; TLC accepts a chunk only if the civil fields equal its calendar, both round trips return the same integer, '
+            'the inverse decimal year and sub-millisecond datetimes land within one millisecond and the decimal year is strictly '
+            'increasing along the sorted chunk.',
+            'Sampling, not proof, over the 9.5e12 milliseconds of the range. Trusted: integer splitting of epoch milliseconds '
+            'into <<day, ms>> and exact float ranks in vh/drivers/c15.py.',
+            '5/C15'),
 }
 
 NOT_YET = 'check not built yet in this round (specification planned in DESIGN.md section 5); not claimed until it exists'
